@@ -4,6 +4,7 @@ from __future__ import annotations
 import re
 
 from autobean_refactor import models as M
+from autobean_refactor.models.internal import repeated as R
 
 from .. import core, docexp, docs, ops, tree
 from .c05 import op_sig
@@ -31,6 +32,7 @@ class ReparseOracle(docexp.Oracle):
 
     def pre(self, root, op):
         number_values(root)       # reads before the edit: a memoised value must not survive it
+        model_values(root)
         return tree.glued_pairs(root.token_store)
 
     def post(self, root, op, ap, pre, res, case):
@@ -67,12 +69,37 @@ class ReparseOracle(docexp.Oracle):
             res.fail(f'C06/number-value-differs-from-printed-text[{sig}]', where + f'number expression #{k}: the model says '
                      f'{va[k] if k < len(va) else None}, the re-parsed text {vb[k] if k < len(vb) else None}')
             return
+        ma, mb = model_values(root), model_values(again)
+        for key, va_ in ma.items():
+            vb_ = mb.get(key)
+            if vb_ is not None and va_ != vb_:
+                name = next((n for n in va_ if va_[n] != vb_.get(n)), '?')
+                res.fail(f'C06/value-property-differs-from-printed-text[{sig}]', where + f'{key[1]} at {"/".join(key[0])}: {name} reads '
+                         f'{va_.get(name)} in memory, {vb_.get(name)} after re-parse')
+                return
         ca, cb = tree.comment_lines(root.token_store), tree.comment_lines(again.token_store)
         if ca != cb:
             res.fail(f'C06/comments-differ[{sig}]', where + f'comments in memory {ca} vs re-parsed {cb}')
 
 
 COL0_COMMENT_INSIDE_BLOCK = re.compile(r'(?m)^[ \t]+[^ \t\r\n][^\n]*\n(;[^\n]*\n)+[ \t]+[^ \t\r\n]')
+
+
+def model_values(root) -> dict:
+    """(path, class, printed text) -> value properties, for every model whose path, class and text identify it in both
+    the in-memory and the re-parsed document (comment properties and indent_by are attribution / layout, not content)"""
+    from . import c09
+    out = {}
+    for path, m in tree.walk(root):
+        if isinstance(m, (M.RawTokenModel, R.Repeated)):
+            continue
+        # string0/1/2 are the positional storage of payee / narration (a lone string is the narration): compared folded by
+        # cmp_signature, and through the proper setters by C09's group exploration
+        vals = {n: v for n, v in c09.read_all(m).items() if n not in c09.COMMENT_PROPS and
+                n not in ('indent_by', 'inline_comment', 'string0', 'string1', 'string2', 'payee', 'narration')}
+        if vals:
+            out[(path, type(m).__name__, tree.pr(m))] = vals
+    return out
 
 
 def number_values(root) -> list:
